@@ -1,5 +1,46 @@
 (* BddProofs.v -- theorems about the BDD model (theories/Bdd.v) for property C19.
-   (header completed at the end of the file's development; see the final report block below) *)
+
+   Everything is proved for an ARBITRARY interpreter (Section ModelProofs: any state type with
+   queue / clock advance / execute / configuration / final / context / expression evaluation), any
+   feature, any scenario, any fuel for which the model returns a result (fuel only bounds the nesting
+   of reproduce; running out of it is Python's RecursionError and outside the domain).
+
+   Main theorems (all Qed, all "Closed under the global context"):
+     C19_testing        every predicate of sismic/testing.py (state_is_entered, state_is_exited,
+                        event_is_fired, event_is_consumed, transition_is_processed) and the loop of
+                        `no event is fired` <-> its declarative reading over micro steps.  No hypotheses.
+     C19_given_when     a given/when step passes iff its documented effect on a plain interpreter
+                        (plain_act) is defined, and then the context holds exactly that interpreter state;
+                        given: monitored trace untouched, when: all macro steps of its execute() calls
+                        appended; plus the documented effect kind by kind.  Hypothesis: inv c (the
+                        invariant of environment.py, true initially and preserved).
+     C19_block          after a prefix whose steps passed: context.interpreter = the plain interpreter
+                        after the same steps, context.monitored_trace = Some (block) for the block as
+                        is_block delimits it, None iff no when step yet; a block exists iff there was a when.
+     C19_skip           every step after the first one that did not pass is Skipped.
+     C19_verdict        a then step whose predecessors passed, preceded by a when step, whose state names
+                        exist, is Passed iff fact holds of (block, plain interpreter state).
+     fact_b_sound       the decidable fact_b evaluated by the harness <-> fact.
+     C19_dispatch       for Doc.patterns (hand-written from docs/behavior.rst; = the list extracted from
+                        steps.py by the obligation regenerated in gen/C19/Dispatch.v): every predefined
+                        step in documented spelling with plain arguments (doc_plain) is dispatched to the
+                        intended function with the intended arguments, for both matching modes ci.
+     C19_expression_unquoted   the quotes of `expression "..." holds` never reach the expression.
+     match_complete     completeness of the matcher for plain arguments, arbitrary patterns.
+     doc_samples_ok     sample spellings decode (matcher + literal reader) to the intended model steps.
+   Non-vacuity: C19_testing_nonvacuous, C19_verdict_nonvacuous (Module Toy), match_complete_nonvacuous,
+   C19_dispatch_nonvacuous.
+
+   Where the code differs from a naive reading of the property text (characterised exactly, see the
+   harness report): (1) the block is "all when steps since the then step that precedes the most recent
+   when step": given steps inside it do not end it (is_block allows HG items in seg), and a then step
+   that follows `then; given` still sees the old block; (2) reproduce re-issues step NAMES only: the
+   Gherkin tables of the reproduced steps are dropped (strip_tables); (3) every repeat/reproduce step
+   adds one more execute() of its own after its nested steps.
+
+   Partial / not covered: numeric fields are proved complete for decimal digit strings only (other
+   forms -- 2.5, +3, 1e3, 0x10 -- are covered by the matcher correspondence run, not by a theorem);
+   plainness (doc_plain) is sufficient, not necessary; behave and parse themselves are not modelled. *)
 From Coq Require Import QArith Lia.
 From Sismic Require Import Base Chart Interp Bdd.
 Open Scope string_scope.
@@ -1140,6 +1181,38 @@ Section ModelProofs.
 
 End ModelProofs.
 
+(* ================================================================== non-vacuity of the model theorems *)
+Module Toy.
+  (* a small concrete interpreter: the state is the list of queued event names; execute() consumes
+     them, one macro step per event, entering the state named like the event and sending out(v=1) *)
+  Definition I := list name.
+  Definition q (e : event) (i : I) : I := i ++ [e_name e].
+  Definition adv (_ : Q) (i : I) : I := i.
+  Definition ex (i : I) : I * option (list macrostep) :=
+    ([], Some (map (fun n => (0%Z, [mkMicro (Some (mkEvent External n [])) None [n] [] [mkEvent Internal "out" [("v", VInt 1)]]])) i)).
+  Definition config (_ : I) : list name := ["root"].
+  Definition final (_ : I) := false.
+  Definition cx (_ : I) : list (name * value) := [("x", VInt 1)].
+  Definition ev (_ : I) (e : string) : option bool := if str_eqb e "x == 1" then Some true else None.
+  Definition states : list name := ["root"; "a"; "b"].
+  Definition steps : list step :=
+    [SAct Given (ASend "a" [] None); SAct When (ARepeat (ASend "b" [("p", VInt 0)] (Some ("p", VInt 2))) 2);
+     SAct Given ANothing; SAct When ANothing;
+     SThen (TEntered "b"); SThen (TFired "out" [] (Some ("v", VBool true))); SThen (TEntered "a"); SThen TFinal].
+End Toy.
+
+Example C19_verdict_nonvacuous :
+  run_scenario Toy.I Toy.q Toy.adv Toy.ex Toy.config Toy.final Toy.cx Toy.ev Toy.states 5 [] Toy.steps []
+    = Some [Passed; Passed; Passed; Passed; Passed; Passed; Failed; Skipped] /\
+  (exists a, In (SAct When a) (firstn 4 Toy.steps)) /\
+  (exists i h, plain_steps Toy.I Toy.q Toy.adv Toy.ex 5 [] (firstn 4 Toy.steps) [] = Some (i, h) /\
+               existsb is_when h = true /\ h = [HG; HW (whens h); HG; HW []]) /\
+  inv Toy.I (ctx_init Toy.I []).
+Proof.
+  split; [vm_compute; reflexivity|]. split; [eexists; cbn; right; left; reflexivity|].
+  split; [|intro X; discriminate]. eexists _, _. split; [vm_compute; reflexivity|]. split; vm_compute; reflexivity.
+Qed.
+
 (* ================================================================== documented patterns *)
 (* Written by hand from docs/behavior.rst, section "Predefined steps" ("Given/when X" = both a
    given and a when definition), in the order steps.py registers them. *)
@@ -1666,26 +1739,54 @@ Proof.
   destruct (match_elems ci p text); [reflexivity|apply IH].
 Qed.
 
-Definition doc_parsed : list pstepdef := Eval vm_compute in parsed_of Doc.patterns.
-Lemma doc_parsed_ok : parsed_of Doc.patterns = doc_parsed.
-Proof. vm_compute. reflexivity. Qed.
+(* ... and restricted to one step type *)
+Definition fstepdef := (option pattern * string * string)%type.
+Fixpoint of_type (st : string) (defs : list pstepdef) : list fstepdef :=
+  match defs with
+  | [] => []
+  | (ty, pp, pat, fn) :: r => if str_eqb ty st then (pp, pat, fn) :: of_type st r else of_type st r
+  end.
+Fixpoint dispatch_f (ci : bool) (defs : list fstepdef) (text : string) : dispatch_result :=
+  match defs with
+  | [] => DUndefined
+  | (pp, pat, fn) :: r =>
+      match pp with
+      | None => DUnsupported pat
+      | Some p =>
+          match match_elems ci p text with
+          | Some b => DMatch fn b
+          | None => dispatch_f ci r text
+          end
+      end
+  end.
 
-Lemma dispatch_doc : forall ci st text, dispatch ci Doc.patterns st text = dispatch_p ci doc_parsed st text.
-Proof. intros. rewrite dispatch_parsed, doc_parsed_ok. reflexivity. Qed.
+Lemma dispatch_filtered : forall ci defs st text, dispatch_p ci defs st text = dispatch_f ci (of_type st defs) text.
+Proof.
+  induction defs as [|[[[ty pp] pat] fn] r IH]; intros st text; cbn [dispatch_p of_type]; [reflexivity|].
+  destruct (str_eqb ty st); [|apply IH]. cbn [dispatch_f]. destruct pp; [|reflexivity].
+  destruct (match_elems ci p text); [reflexivity|apply IH].
+Qed.
 
-Lemma dispatch_skip_type : forall ci ty pp pat fn r st text R,
-  str_eqb ty st = false -> dispatch_p ci r st text = R -> dispatch_p ci ((ty, pp, pat, fn) :: r) st text = R.
-Proof. intros. cbn [dispatch_p]. rewrite H. assumption. Qed.
+Definition doc_given : list fstepdef := Eval vm_compute in of_type "given" (parsed_of Doc.patterns).
+Definition doc_when : list fstepdef := Eval vm_compute in of_type "when" (parsed_of Doc.patterns).
+Definition doc_then : list fstepdef := Eval vm_compute in of_type "then" (parsed_of Doc.patterns).
 
-Lemma dispatch_nomatch : forall ci ty pat fn r st text p R,
-  str_eqb ty st = true -> match_elems ci p text = None ->
-  dispatch_p ci r st text = R -> dispatch_p ci ((ty, Some p, pat, fn) :: r) st text = R.
-Proof. intros. cbn [dispatch_p]. rewrite H, H0. assumption. Qed.
+Lemma dispatch_doc_given : forall ci text, dispatch ci Doc.patterns "given" text = dispatch_f ci doc_given text.
+Proof. intros. rewrite dispatch_parsed, dispatch_filtered. reflexivity. Qed.
+Lemma dispatch_doc_when : forall ci text, dispatch ci Doc.patterns "when" text = dispatch_f ci doc_when text.
+Proof. intros. rewrite dispatch_parsed, dispatch_filtered. reflexivity. Qed.
+Lemma dispatch_doc_then : forall ci text, dispatch ci Doc.patterns "then" text = dispatch_f ci doc_then text.
+Proof. intros. rewrite dispatch_parsed, dispatch_filtered. reflexivity. Qed.
 
-Lemma dispatch_match : forall ci ty pat fn r st text p b,
-  str_eqb ty st = true -> match_elems ci p text = Some b ->
-  dispatch_p ci ((ty, Some p, pat, fn) :: r) st text = DMatch fn b.
-Proof. intros. cbn [dispatch_p]. rewrite H, H0. reflexivity. Qed.
+Lemma dispatch_nomatch : forall ci pat fn r text p R,
+  match_elems ci p text = None ->
+  dispatch_f ci r text = R -> dispatch_f ci ((Some p, pat, fn) :: r) text = R.
+Proof. intros. cbn [dispatch_f]. rewrite H. assumption. Qed.
+
+Lemma dispatch_match : forall ci pat fn r text p b,
+  match_elems ci p text = Some b ->
+  dispatch_f ci ((Some p, pat, fn) :: r) text = DMatch fn b.
+Proof. intros. cbn [dispatch_f]. rewrite H. reflexivity. Qed.
 
 (* a field followed by the LAST literal of the pattern: no plainness needed, the literal must end the text *)
 Lemma match_any_lit_end : forall ci n l a, a <> "" ->
@@ -1821,17 +1922,16 @@ Definition doc_plain (ci : bool) (d : docstep) : bool :=
   | DExpr e | DNotExpr e => nonempty e
   end.
 
-Ltac skip_type := apply dispatch_skip_type; [reflexivity|].
-Ltac no_prefix := apply dispatch_nomatch; [reflexivity|apply nomatch_prefix; reflexivity|].
+Ltac no_prefix := apply dispatch_nomatch; [apply nomatch_prefix; reflexivity|].
 Ltac no_suffix :=
-  apply dispatch_nomatch; [reflexivity| |];
+  apply dispatch_nomatch; [ |];
   [match goal with
    | |- match_elems ?ci [?a; ?b; PLit ?l1] (?pre +++ ?x +++ ?l2) = None =>
        apply (nomatch_suffix2 ci [a; b] l1 pre x l2); reflexivity
    end|].
-Ltac hit := apply dispatch_match; [reflexivity|].
-Ltac start := rewrite ?dispatch_doc; unfold doc_parsed; cbn [doc_text doc_fn gw_type].
-Ltac skips := start; repeat first [skip_type | no_prefix | no_suffix].
+Ltac hit := apply dispatch_match.
+Ltac start := cbn [doc_text doc_fn gw_type]; rewrite ?dispatch_doc_given, ?dispatch_doc_when, ?dispatch_doc_then; unfold doc_given, doc_when, doc_then.
+Ltac skips := start; repeat first [no_prefix | no_suffix].
 
 Lemma andb_split : forall a b, a && b = true -> a = true /\ b = true.
 Proof. intros a b H. apply andb_true_iff in H. exact H. Qed.
@@ -1865,7 +1965,7 @@ Qed.
 
 (* the pattern at the head contains the literal "=", the text does not *)
 Ltac no_eq Hc :=
-  apply dispatch_nomatch; [reflexivity| |];
+  apply dispatch_nomatch; [ |];
   [match goal with
    | |- match_elems ?ci ?p ?text = None =>
        let E := fresh "E" in
@@ -1875,7 +1975,7 @@ Ltac no_eq Hc :=
    end|].
 (* the pattern at the head contains the literal lit, the whole text does not (Hc) *)
 Ltac no_lit lit Hc :=
-  apply dispatch_nomatch; [reflexivity| |];
+  apply dispatch_nomatch; [ |];
   [match goal with
    | |- match_elems ?ci ?p ?text = None =>
        let E := fresh "E" in
